@@ -195,6 +195,13 @@ def ref_partitions(n, maxpart=None):
     return out
 
 
+def ns(d):
+    """positional node_select argument(s): omitted when the case asks for the documented default ("uniform")"""
+    if d["sel"]["mode"] == "uniform" and d.get("dflt"):
+        return ()
+    return (sel_arg(d["sel"]),)
+
+
 def sel_arg(sel):
     """JSON sel -> node_select argument"""
     if sel["mode"] == "weight":
@@ -294,43 +301,205 @@ def pred_event_card(d):
     return [("event_cardinality:wrong-sum", "event_cardinality(%d,%d,%d) = %r, exact count %d" % (k, c, m, v, e))]
 
 
-class _UnitState:
-    """stands in for the GBS state: every sample has probability 1, so the Monte Carlo estimate equals its prefactor"""
+class _ProbeState:
+    """Stands in for the GBS state.  fock_prob(sample, cutoff) is 1 for a sample the caller is entitled to ask about
+    (valid(sample)) with a cutoff above the photon number, 0.25 otherwise, so that an estimator fed with the right
+    samples returns exactly its prefactor / the number of patterns.  Every call is recorded."""
 
-    def fock_prob(self, sample, cutoff=None):
-        return 1.0
+    def __init__(self, valid):
+        self.valid = valid
+        self.calls = []
+
+    def fock_prob(self, sample, cutoff=None, **kw):
+        smp = [int(x) for x in sample]
+        self.calls.append((tuple(smp), cutoff))
+        ok = self.valid(smp) and cutoff is not None and cutoff > sum(smp)
+        return 1.0 if ok else 0.25
+
+
+@contextlib.contextmanager
+def probe_state(valid):
+    """replace similarity._get_state; yields (state, list of (graph, n_mean, loss) it was asked for)"""
+    st = _ProbeState(valid)
+    asked = []
+    orig = SI._get_state
+
+    def fake(graph, n_mean=5, loss=0.0):
+        asked.append((graph, n_mean, loss))
+        return st
+    SI._get_state = fake
+    try:
+        yield st, asked
+    finally:
+        SI._get_state = orig
+
+
+def in_event(k, c, m):
+    return lambda smp: len(smp) == m and sum(smp) == k and (not smp or max(smp) <= c)
+
+
+def in_orbit(orbit, m):
+    o = sorted(orbit, reverse=True)
+    return lambda smp: len(smp) == m and sorted([x for x in smp if x], reverse=True) == o
+
+
+def _close(v, exact):
+    try:
+        return abs(Fraction(float(v)) - exact) <= Fraction(max(exact, 1), 10 ** 12)
+    except (OverflowError, ValueError, TypeError):
+        return False
+
+
+def _asked_ok(asked, G, n_mean, loss):
+    return all(a[0] is G and a[1] == n_mean and a[2] == loss for a in asked)
 
 
 def pred_mc(d):
-    """prob_event_mc / prob_orbit_mc scale the sampled mean by event_/orbit_cardinality: with a unit-probability
-    state the estimate must equal the exact cardinality up to double rounding"""
+    """prob_event_mc / prob_orbit_mc: `samples` samples of the event / orbit are drawn, their probabilities (cutoff
+    above the photon number) are averaged and scaled by the cardinality: with the probe state the estimate is exactly
+    the cardinality; argument guards raise ValueError"""
     k, c, m, S = d["photons"], d["maxc"], d["modes"], d.get("samples", 1)
+    n_mean, loss = d.get("n_mean", 5), d.get("loss", 0.0)
     orbit = d.get("orbit")
     G = nx.empty_graph(m)
-    orig = SI._get_state
-    SI._get_state = lambda *a, **kw: _UnitState()
-    try:
-        if orbit is not None:
-            exact = exact_orbit_card(orbit, m) if len(orbit) <= m else 0
-            name = "prob_orbit_mc"
-            r = call(SI.prob_orbit_mc, G, list(orbit), 5, S, 0.0, draws=d["draws"], perm=d["perm"])
-        else:
-            exact = exact_event_card(k, c, m) if k > 0 else 1
-            name = "prob_event_mc"
-            r = call(SI.prob_event_mc, G, k, c, 5, S, 0.0, draws=d["draws"], perm=d["perm"])
-    finally:
-        SI._get_state = orig
+    if orbit is not None:
+        exact = exact_orbit_card(orbit, m) if len(orbit) <= m else 0
+        name, valid = "prob_orbit_mc", in_orbit(orbit, m)
+        fn = lambda: SI.prob_orbit_mc(G, list(orbit), n_mean, S, loss)  # noqa: E731
+        bad = S < 1 or n_mean < 0 or not 0 <= loss <= 1
+    else:
+        exact = (exact_event_card(k, c, m) if k > 0 else 1) if (k >= 0 and c >= 0) else 0
+        name, valid = "prob_event_mc", in_event(k, c, m)
+        fn = lambda: SI.prob_event_mc(G, k, c, n_mean, S, loss)  # noqa: E731
+        bad = S < 1 or n_mean < 0 or not 0 <= loss <= 1 or k < 0 or c < 0
+    with probe_state(valid) as (st, asked):
+        r = call(fn, draws=d["draws"], perm=d["perm"])
+    if bad:
+        return [] if r[0] == "ValueError" else [(name + ":no-error", "%s accepted samples=%r n_mean=%r loss=%r photons=%r max_count=%r: %s" % (name, S, n_mean, loss, k, c, r[:2]))]
     if exact == 0 or exact.bit_length() > 900:
         return []
     if r[0] != "Ok":
-        return [(name + ":raises", "%s with a unit-probability state raised %s (cardinality %d)" % (name, r[1:], exact))]
-    try:
-        ok = abs(Fraction(float(r[1])) - exact) <= Fraction(exact, 10 ** 12)
-    except (OverflowError, ValueError, TypeError):
-        ok = False
-    if not ok:
-        return [(name + ":prefactor", "%s with a unit-probability state returned %r; its prefactor, the cardinality, is exactly %d (%d bits)" % (name, r[1], exact, exact.bit_length()))]
-    return []
+        return [(name + ":raises", "%s with a probe state raised %s (cardinality %d)" % (name, r[1:], exact))]
+    out = []
+    if not _asked_ok(asked, G, n_mean, loss):
+        out.append((name + ":state-arguments", "%s built its state from %s instead of (graph, n_mean=%r, loss=%r)" % (name, [a[1:] for a in asked], n_mean, loss)))
+    if len(st.calls) != S:
+        out.append((name + ":sample-count", "%s(samples=%d) asked for %d sample probabilities" % (name, S, len(st.calls))))
+    wrong = [cl for cl in st.calls if not valid(list(cl[0])) or cl[1] is None or cl[1] <= sum(cl[0])]
+    if wrong:
+        out.append((name + ":wrong-sample", "%s asked for the probability of %s (cutoff %r), which is not a sample of the requested %s with a sufficient cutoff" % (name, list(wrong[0][0]), wrong[0][1], "orbit %s" % orbit if orbit is not None else "event (%d photons, <= %d per mode, %d modes)" % (k, c, m))))
+    if not out and not _close(r[1], exact):
+        out.append((name + ":prefactor", "%s with a unit-probability state returned %r; its prefactor, the cardinality, is exactly %d (%d bits)" % (name, r[1], exact, exact.bit_length())))
+    return out
+
+
+def pred_pexact(d):
+    """prob_orbit_exact / prob_event_exact sum the probabilities of all samples of the orbit / event, each once"""
+    k, c, m = d["photons"], d["maxc"], d["modes"]
+    n_mean, loss = d.get("n_mean", 5), d.get("loss", 0.0)
+    orbit = d.get("orbit")
+    G = nx.empty_graph(m)
+    bad = n_mean < 0 or not 0 <= loss <= 1
+    if orbit is not None:
+        exact = exact_orbit_card(orbit, m) if len(orbit) <= m else 0
+        name, valid = "prob_orbit_exact", in_orbit(orbit, m)
+        fn = lambda: SI.prob_orbit_exact(G, list(orbit), n_mean, loss)  # noqa: E731
+    else:
+        exact = exact_event_card(k, c, m) if k > 0 else 1
+        name, valid = "prob_event_exact", in_event(k, c, m)
+        fn = lambda: SI.prob_event_exact(G, k, c, n_mean, loss)  # noqa: E731
+        bad = bad or k < 0 or c < 0
+    with probe_state(valid) as (st, asked):
+        r = call(fn)
+    if bad:
+        return [] if r[0] == "ValueError" else [(name + ":no-error", "%s accepted n_mean=%r loss=%r photons=%r max_count=%r" % (name, n_mean, loss, k, c))]
+    if r[0] != "Ok":
+        return [(name + ":raises", "%s raised %s" % (name, r[1:]))]
+    out = []
+    pats = [cl[0] for cl in st.calls]
+    if not _asked_ok(asked, G, n_mean, loss):
+        out.append((name + ":state-arguments", "%s built its state from %s instead of (graph, n_mean=%r, loss=%r)" % (name, [a[1:] for a in asked], n_mean, loss)))
+    if len(set(pats)) != len(pats):
+        out.append((name + ":pattern-twice", "%s adds the probability of a sample twice" % name))
+    wrong = [cl for cl in st.calls if not valid(list(cl[0])) or cl[1] is None or cl[1] <= sum(cl[0])]
+    if wrong:
+        out.append((name + ":wrong-sample", "%s adds the probability of %s (cutoff %r), not a sample of the requested orbit/event" % (name, list(wrong[0][0]), wrong[0][1])))
+    if not out and (len(set(pats)) != exact or not _close(r[1], exact)):
+        out.append((name + ":incomplete", "%s sums %d sample probabilities (result %r with a unit-probability state); there are exactly %d samples" % (name, len(set(pats)), r[1], exact)))
+    return out
+
+
+def pred_fv(d):
+    """feature_vector_orbits / feature_vector_events: one entry per requested orbit / event, in order, exact when
+    samples is None and Monte Carlo with that many samples otherwise"""
+    m, S = d["modes"], d.get("samples")
+    n_mean, loss = d.get("n_mean", 5), d.get("loss", 0.0)
+    G = nx.empty_graph(m)
+    out = []
+    if "orbits" in d:
+        items, name = d["orbits"], "feature_vector_orbits"
+        exact = [exact_orbit_card(o, m) if len(o) <= m else 0 for o in items]
+        valid = lambda smp: any(in_orbit(o, m)(smp) for o in items)  # noqa: E731
+        fn = lambda: SI.feature_vector_orbits(G, copy.deepcopy(items), n_mean, S, loss)  # noqa: E731
+        bad = len(items) == 0 or any(min(o) < 0 for o in items if o) or n_mean < 0 or not 0 <= loss <= 1
+    else:
+        items, c, name = d["events"], d["maxc"], "feature_vector_events"
+        exact = [(exact_event_card(k, c, m) if k > 0 else 1) if k >= 0 and c >= 0 else 0 for k in items]
+        valid = lambda smp: any(in_event(k, c, m)(smp) for k in items)  # noqa: E731
+        if c == 2 and d.get("dflt"):
+            fn = lambda: SI.feature_vector_events(G, list(items), n_mean=n_mean, samples=S, loss=loss)  # noqa: E731
+        else:
+            fn = lambda: SI.feature_vector_events(G, list(items), c, n_mean, S, loss)  # noqa: E731
+        bad = len(items) == 0 or (items and min(items) < 0) or c < 0 or n_mean < 0 or not 0 <= loss <= 1
+    with probe_state(valid) as (st, asked):
+        r = call(fn, draws=d["draws"], perm=d["perm"])
+    if bad:
+        return [] if r[0] == "ValueError" else [(name + ":no-error", "%s accepted an invalid request %s" % (name, {kk: vv for kk, vv in d.items() if kk not in ("draws", "perm")}))]
+    if any(e == 0 for e in exact):
+        return []      # empty orbit / event: the estimators have nothing to draw
+    if r[0] != "Ok":
+        return [(name + ":raises", "%s raised %s" % (name, r[1:]))]
+    vec = list(r[1])
+    if not _asked_ok(asked, G, n_mean, loss):
+        out.append((name + ":state-arguments", "%s built its state from %s instead of (graph, n_mean=%r, loss=%r)" % (name, sorted(set(a[1:] for a in asked)), n_mean, loss)))
+    if len(vec) != len(items) or not all(_close(v, e) for v, e in zip(vec, exact)):
+        out.append((name + ":wrong-entries", "%s(%s, samples=%r) with a unit-probability state = %s, the cardinalities are %s" % (name, items, S, vec, exact)))
+    want_calls = S * len(items) if S else sum(exact)
+    if not out and len(st.calls) != want_calls:
+        out.append((name + ":wrong-estimator", "%s(samples=%r) evaluated %d sample probabilities, expected %d (%s)" % (name, S, len(st.calls), want_calls, "Monte Carlo" if S else "exact")))
+    return out
+
+
+def pred_fvs(d):
+    """feature_vector_orbits_sampling / feature_vector_events_sampling: relative frequencies among the samples"""
+    samples = d["samples"]
+    out = []
+    n = len(samples)
+    if "orbits" in d:
+        items = d["orbits"]
+        r = call(SI.feature_vector_orbits_sampling, copy.deepcopy(samples), copy.deepcopy(items))
+        bad = len(items) == 0 or any(min(o) < 0 for o in items if o)
+        name = "feature_vector_orbits_sampling"
+        ref = [Fraction(sum(1 for smp in samples if sorted([x for x in smp if x], reverse=True) == list(o)), n) for o in items] if not bad else None
+    else:
+        items, c = d["events"], d["maxc"]
+        if c == 2 and d.get("dflt"):
+            r = call(SI.feature_vector_events_sampling, copy.deepcopy(samples), list(items))
+        else:
+            r = call(SI.feature_vector_events_sampling, copy.deepcopy(samples), list(items), c)
+        bad = len(items) == 0 or min(items) < 0 or c < 0
+        name = "feature_vector_events_sampling"
+        ref = [Fraction(sum(1 for smp in samples if sum(smp) == k and max(smp) <= c), n) for k in items] if not bad else None
+    if bad:
+        return [] if r[0] == "ValueError" else [(name + ":no-error", "%s accepted an invalid request %s" % (name, items))]
+    if r[0] != "Ok":
+        if "orbits" in d and any(len(o) == 0 for o in items) and r[0] == "ValueError":
+            return [(name + ":empty-orbit", "%s(%s, %s) raised %s: the orbit [] of an all-zero sample (sample_to_orbit([0, 0]) == []) cannot be requested" % (name, samples, items, r[1:]))]
+        return [(name + ":raises", "%s raised %s" % (name, r[1:]))]
+    vec = list(r[1])
+    if len(vec) != len(ref) or any(abs(float(v) - float(e)) > 1e-12 for v, e in zip(vec, ref)):
+        out.append((name + ":wrong", "%s(%s, %s%s) = %s, the relative frequencies are %s" % (name, samples, items, "" if "orbits" in d else ", max_count_per_mode=%d" % d["maxc"], vec, [str(x) for x in ref])))
+    return out
 
 
 def pred_orbits(d):
@@ -494,7 +663,7 @@ def pred_grow(d):
     G = mkgraph(g)
     adj = adjacency(g)
     arg = list(cl)
-    r = call(CL.grow, arg, G, sel_arg(sel), draws=draws)
+    r = call(CL.grow, arg, G, *ns(d), draws=draws)
     out = []
     if arg != list(cl) or not _graph_unchanged(G, g):
         out.append(("grow:mutates-input", "grow changed its arguments"))
@@ -542,7 +711,7 @@ def pred_swap(d):
     G = mkgraph(g)
     adj = adjacency(g)
     arg = list(cl)
-    r = call(CL.swap, arg, G, sel_arg(sel), draws=draws)
+    r = call(CL.swap, arg, G, *ns(d), draws=draws)
     out = []
     if arg != list(cl) or not _graph_unchanged(G, g):
         out.append(("swap:mutates-input", "swap changed its arguments"))
@@ -592,7 +761,7 @@ def pred_shrink(d):
     G = mkgraph(g)
     adj = adjacency(g)
     arg = list(sub)
-    r = call(CL.shrink, arg, G, sel_arg(sel), draws=draws)
+    r = call(CL.shrink, arg, G, *ns(d), draws=draws)
     out = []
     if arg != list(sub) or not _graph_unchanged(G, g):
         out.append(("shrink:mutates-input", "shrink changed its arguments"))
@@ -636,7 +805,7 @@ def pred_csearch(d):
     G = mkgraph(g)
     adj = adjacency(g)
     arg = list(cl)
-    r = call(CL.search, arg, G, iters, sel_arg(sel), draws=draws)
+    r = call(CL.search, arg, G, iters, *ns(d), draws=draws)
     out = []
     if arg != list(cl) or not _graph_unchanged(G, g):
         out.append(("clique.search:mutates-input", "search changed its arguments"))
@@ -721,7 +890,7 @@ def pred_resize(d):
     G = mkgraph(g)
     adj = adjacency(g)
     arg = list(sub)
-    r = call(SG.resize, arg, G, lo, hi, sel_arg(sel), draws=draws)
+    r = call(SG.resize, arg, G, lo, hi, *ns(d), draws=draws)
     out = []
     if arg != list(sub) or not _graph_unchanged(G, g):
         out.append(("resize:mutates-input", "resize changed its arguments"))
@@ -756,7 +925,12 @@ def pred_search(d):
         return r
     SG.resize = rec_resize
     try:
-        r = call(SG.search, copy.deepcopy(subs), G, lo, hi, mc, sel_arg(sel), draws=draws)
+        if d.get("dflt") and mc == 10 and sel["mode"] == "uniform":
+            r = call(SG.search, copy.deepcopy(subs), G, lo, hi, draws=draws)
+        elif d.get("dflt") and mc == 10:
+            r = call(SG.search, copy.deepcopy(subs), G, lo, hi, node_select=sel_arg(sel), draws=draws)
+        else:
+            r = call(SG.search, copy.deepcopy(subs), G, lo, hi, mc, sel_arg(sel), draws=draws)
     finally:
         SG.resize = orig
     out = []
@@ -864,7 +1038,7 @@ PREDS = {
     "card": pred_card, "event_card": pred_event_card, "orbits": pred_orbits, "convert": pred_convert,
     "o2s": pred_o2s, "e2s": pred_e2s, "sample": pred_sample, "is_clique": pred_is_clique, "c01": pred_c01,
     "grow": pred_grow, "swap": pred_swap, "shrink": pred_shrink, "resize": pred_resize, "search": pred_search,
-    "update": pred_update, "csearch": pred_csearch, "mc": pred_mc,
+    "update": pred_update, "csearch": pred_csearch, "mc": pred_mc, "pexact": pred_pexact, "fv": pred_fv, "fvs": pred_fvs,
 }
 
 
@@ -886,9 +1060,16 @@ def run_pred(ctx, kind, data, emit=True):
 def gen_graph(rng, max_n=8, labels="small", loops=False):
     sizes = [1, 2, 3, 4, 4, 5, 5, 6, 6, 7, 7, 8, 8, 9, 10, 11, 12]
     n = rng.choice([k for k in sizes if k <= max_n])
+    kind = rng.random()
+    if labels in ("anytype", "anynum") and kind < 0.03:
+        n = 0                                        # the empty graph
     if labels == "small":
         pool = list(range(8))
         nodes = sorted(rng.sample(pool, n)) if rng.random() < 0.5 else list(range(n))
+    elif labels == "anytype" and kind < 0.15:
+        nodes = ["n%d" % i for i in rng.sample(range(0, 30), n)]      # strings: "n10" < "n2"
+    elif labels in ("anytype", "anynum") and kind < 0.27:
+        nodes = [i + 0.5 for i in rng.sample(range(0, 30), n)]        # non-integer numbers
     else:
         style = rng.random()
         if style < 0.3:
@@ -911,11 +1092,20 @@ def gen_graph(rng, max_n=8, labels="small", loops=False):
                 if frozenset((u, v)) not in have:
                     edges.append([u, v])
                     have.add(frozenset((u, v)))
-    if loops:
+    if loops and n:
         for u in rng.sample(nodes, rng.randint(1, min(2, n))):
             edges.append([u, u])
     rng.shuffle(edges)
     return {"nodes": nodes, "edges": edges}
+
+
+def fresh_label(g):
+    """a label that is not a node of g"""
+    if not g["nodes"]:
+        return 0
+    if isinstance(g["nodes"][0], str):
+        return "zz_not_a_node"
+    return max(g["nodes"]) + 1
 
 
 def gen_sel(rng, g, modes=("uniform", "degree", "weight"), bad=0.04):
@@ -967,21 +1157,21 @@ def gen_sub(rng, g, lo=0):
 def gen_clique_case(rng, kind, max_n, labels):
     g = gen_graph(rng, max_n=max_n, labels=labels, loops=rng.random() < 0.15)
     sel = gen_sel(rng, g, modes=("uniform", "weight") if kind == "shrink" else ("uniform", "degree", "weight"))
-    d = {"graph": g, "sel": sel, "draws": gen_draws(rng)}
+    d = {"graph": g, "sel": sel, "draws": gen_draws(rng), "dflt": rng.random() < 0.4}
     if kind in ("grow", "swap"):
         cl = find_clique(rng, g)
         r = rng.random()
         if r < 0.05:
             cl = gen_sub(rng, g)          # probably not a clique
         elif r < 0.08:
-            cl = cl + [max(g["nodes"]) + 1]  # not a subgraph
+            cl = cl + [fresh_label(g)]  # not a subgraph
         elif r < 0.15 and cl:
             cl = cl + [cl[0]]
         d["clique"] = cl
     else:
         sub = gen_sub(rng, g, lo=2 if rng.random() < 0.8 else 0)
         if rng.random() < 0.03:
-            sub = sub + [max(g["nodes"]) + 1]
+            sub = sub + [fresh_label(g)]
         d["sub"] = sub
     return d
 
@@ -1000,8 +1190,8 @@ def gen_resize_case(rng, max_n, labels):
     else:
         lo, hi = rng.randint(0, n + 1), rng.randint(0, n + 1)
     if rng.random() < 0.03:
-        sub = sub + [max(g["nodes"]) + 1]
-    return {"graph": g, "sub": sub, "lo": lo, "hi": hi, "sel": sel, "draws": gen_draws(rng, 24)}
+        sub = sub + [fresh_label(g)]
+    return {"graph": g, "sub": sub, "lo": lo, "hi": hi, "sel": sel, "draws": gen_draws(rng, 24), "dflt": rng.random() < 0.4}
 
 
 def gen_search_case(rng, max_n, labels):
@@ -1012,7 +1202,7 @@ def gen_search_case(rng, max_n, labels):
         subs.append(list(subs[0]))
     d.pop("sub")
     d["subs"] = subs
-    d["max_count"] = rng.choice([1, 1, 2, 3, 10])
+    d["max_count"] = rng.choice([1, 1, 2, 3, 10, 10])
     d["draws"] = gen_draws(rng, 80)
     return d
 
@@ -1555,32 +1745,120 @@ def search(ctx):
         rng.shuffle(perm)
         go("e2s", {"photons": k, "maxc": c, "modes": m, "draws": gen_draws(rng, 2), "perm": perm}, m > 22)
     for _ in range(30 * scale):
-        g = gen_graph(rng, max_n=12, labels="any")
+        g = gen_graph(rng, max_n=12, labels="anytype")
         n = len(g["nodes"])
         go("sample", {"samples": gen_samples(rng, n, rng.randint(1, 5)) + ([[1] * (n + 1)] if rng.random() < 0.1 else []),
                       "lo": rng.randint(0, 3), "hi": rng.randint(2, 9), "graph": g})
+    # ---- deterministic small sweeps (boundaries of every guard and comparison)
+    for k in range(0, 5):
+        for m in range(1, 5):
+            for c in (1, 2, 3):
+                go("convert", {"photons": k, "maxc": c, "modes": m})
+    for n in range(1, 7):
+        for o in ref_partitions(n):
+            for m in (len(o) - 1, len(o), len(o) + 1):
+                if m >= 0:
+                    go("card", {"orbit": o, "modes": m})
+                    go("o2s", {"orbit": o, "modes": m, "perm": list(range(m))[::-1]})
+    for k in range(0, 7):
+        for c in (-1, 0, 1, 2, 3):
+            for m in range(1, 5):
+                if abs(c * m - k) <= 1 or c < 0:     # events that are empty, exactly full, or one photon short of full
+                    go("e2s", {"photons": k, "maxc": c, "modes": m, "draws": [k + c + m, 1], "perm": list(range(m))[::-1]})
+                    if c >= 0:
+                        go("event_card", {"photons": k, "maxc": c, "modes": m})
+    sweep_samples = [[0, 0, 0], [1, 0, 0], [0, 1, 1], [2, 0, 1], [2, 2, 0], [1, 2, 2], [3, 3, 0], [0, 0, 7]]   # sums 0..7
+    g3 = {"nodes": [4, 9, 2], "edges": [[4, 9]]}
+    for lo in range(0, 5):
+        for hi in range(lo - 1, 8, 2):
+            go("sample", {"samples": sweep_samples, "lo": lo, "hi": hi, "graph": g3})
+    # ---- estimators observed through a probe state, feature vectors
+    for _ in range(8 * scale):
+        k, c, m = rng.randint(0, 7), rng.randint(0, 4), rng.randint(1, 9)
+        perm = list(range(m))
+        rng.shuffle(perm)
+        d = {"photons": k, "maxc": c, "modes": m, "samples": rng.choice([1, 2, 3, 7]), "n_mean": rng.choice([5, 3.5, 0, 0.25]),
+             "loss": rng.choice([0.0, 0.25, 1, 0.5]), "draws": gen_draws(rng, 8), "perm": perm}
+        if rng.random() < 0.4:
+            d["orbit"] = gen_orbit(rng, 7)
+            d["photons"], d["maxc"] = sum(d["orbit"]), max(d["orbit"])
+        r = rng.random()
+        if r < 0.25:                      # one invalid argument
+            bad = rng.choice(["samples", "n_mean", "loss", "loss2", "photons", "maxc"])
+            if bad == "samples":
+                d["samples"] = rng.choice([0, -1])
+            elif bad == "n_mean":
+                d["n_mean"] = -0.5
+            elif bad == "loss":
+                d["loss"] = 1.5
+            elif bad == "loss2":
+                d["loss"] = -0.1
+            elif bad == "photons" and "orbit" not in d:
+                d["photons"] = -1
+            elif "orbit" not in d:
+                d["maxc"] = -1
+        if c * m >= k or "orbit" in d or r < 0.25:
+            go("mc", d)
+    for _ in range(8 * scale):
+        k, c, m = rng.randint(0, 6), rng.randint(0, 3), rng.randint(1, 6)
+        d = {"photons": k, "maxc": c, "modes": m, "n_mean": rng.choice([5, 3.5, 0, -1]), "loss": rng.choice([0.0, 0.25, 1, 1.25, -0.5])}
+        if rng.random() < 0.5:
+            d["orbit"] = gen_orbit(rng, 6)
+            d["photons"], d["maxc"] = sum(d["orbit"]), max(d["orbit"])
+        go("pexact", d)
+    for _ in range(8 * scale):
+        m = rng.randint(1, 6)
+        perm = list(range(m))
+        rng.shuffle(perm)
+        d = {"modes": m, "samples": rng.choice([None, None, 0, 1, 3]), "n_mean": rng.choice([5, 2.5, 0]), "loss": rng.choice([0.0, 0.5, 1]),
+             "draws": gen_draws(rng, 40), "perm": perm, "dflt": rng.random() < 0.5}
+        if rng.random() < 0.5:
+            d["orbits"] = [o for o in (gen_orbit(rng, 5) for _ in range(rng.randint(0, 4)))]
+            if rng.random() < 0.15 and d["orbits"]:
+                d["orbits"][-1] = d["orbits"][-1] + [-1]
+        else:
+            d["events"] = [rng.randint(0, 6) for _ in range(rng.randint(0, 4))]
+            d["maxc"] = rng.choice([1, 2, 2, 3, -1]) if rng.random() < 0.9 else 0
+            if rng.random() < 0.15 and d["events"]:
+                d["events"][0] = -2
+        go("fv", d)
+    for _ in range(12 * scale):
+        m = rng.randint(1, 6)
+        smp = gen_samples(rng, m, rng.randint(1, 12))
+        d = {"samples": smp, "dflt": rng.random() < 0.5}
+        if rng.random() < 0.5:
+            pool = [sorted([x for x in s0 if x], reverse=True) for s0 in smp] + [gen_orbit(rng, 5) for _ in range(2)]
+            d["orbits"] = [rng.choice(pool) for _ in range(rng.randint(0, 5))]
+            if rng.random() < 0.1 and d["orbits"]:
+                d["orbits"][0] = [1, -1]
+        else:
+            d["events"] = [rng.choice([sum(s0) for s0 in smp] + [0, 1, 2, 9]) for _ in range(rng.randint(0, 5))]
+            d["maxc"] = rng.choice([0, 1, 2, 2, 2, 3, 5, -1])
+            if rng.random() < 0.1 and d["events"]:
+                d["events"][-1] = -1
+        go("fvs", d, len(smp) >= 3)
     # graphs: arbitrary labels, up to 12 nodes
     for _ in range(40 * scale):
-        g = gen_graph(rng, max_n=12, labels="any", loops=rng.random() < 0.3)
+        g = gen_graph(rng, max_n=12, labels="anytype", loops=rng.random() < 0.3)
         go("is_clique", {"graph": g, "sub": gen_sub(rng, g)})
     for _ in range(40 * scale):
-        g = gen_graph(rng, max_n=12, labels="any")
+        g = gen_graph(rng, max_n=12, labels="anytype")
         cl = find_clique(rng, g) if rng.random() < 0.9 else gen_sub(rng, g)
         go("c01", {"graph": g, "clique": cl})
     for kind in ("grow", "swap", "shrink"):
         for _ in range(90 * scale):
-            d = gen_clique_case(rng, kind, 12, "any")
+            d = gen_clique_case(rng, kind, 12, "anynum" if kind == "shrink" else "anytype")
             go(kind, d, len(d["graph"]["nodes"]) >= 4 and d["sel"]["mode"] in ("degree", "weight"))
     for _ in range(60 * scale):
-        d = gen_clique_case(rng, "grow", 12, "any")
-        d["iterations"] = rng.choice([0, 1, 2, 3, 6, 20])
+        d = gen_clique_case(rng, "grow", 12, "anytype")
+        d["iterations"] = rng.choice([-1, 0, 1, 1, 2, 3, 6, 20])
         d["draws"] = gen_draws(rng, 60)
         go("csearch", d, len(d["graph"]["nodes"]) >= 4 and d["iterations"] >= 2)
     for _ in range(110 * scale):
-        d = gen_resize_case(rng, 12, "any")
+        d = gen_resize_case(rng, 12, "anynum")
         go("resize", d, len(d["graph"]["nodes"]) >= 4 and d["sel"]["mode"] == "weight")
     for _ in range(30 * scale):
-        d = gen_search_case(rng, 10, "any")
+        d = gen_search_case(rng, 10, "anynum")
         go("search", d, len(d["subs"]) >= 2)
     for _ in range(60 * scale):
         d = gen_update_case(rng)
